@@ -35,7 +35,7 @@ DEFAULT = {"float_type": "float64", "decimals": 3, "atol": 1e-3, "rtol": 0.0, "a
            "logger": "L0", "factory_manager": "F0"}
 FLOAT_TYPES = {"float64": np.float64, "float32": np.float32, "float16": np.float16, "float": float}
 OBS = ["str", "close", "dtype", "alias", "fm", "logger", "rule", "fll", "vars", "arr", "fld", "fld_late", "mkexp", "ruletext",
-       "termparams", "tofloat", "xy", "pyexp", "fll_p", "imp", "func", "func_op"]
+       "termparams", "tofloat", "xy", "pyexp", "fll_p", "imp", "func", "func_op", "dtype_arr", "str3d", "func_mod"]
 
 _POOL: dict[str, object] = {}
 
@@ -70,7 +70,11 @@ def pool(code: str):
         f1.function.objects["//"] = fl.Function.Element("//", "Floor division", "Operator", np.floor_divide, arity=2,
                                                         precedence=div.precedence, associativity=div.associativity)
         _POOL["F1"] = f1
-        _POOL["F2"] = fl.FactoryManager()
+        f2 = fl.FactoryManager()
+        # F2 customises an element *in place* (users do `manager.function["%"].method = np.fmod`): factory managers must
+        # not share element objects, or the customisation shows through every other manager
+        f2.function.objects["%"].method = np.fmod
+        _POOL["F2"] = f2
     return _POOL[code]
 
 
@@ -637,6 +641,19 @@ class Interp:
             except SyntaxError:
                 ok = False
             return ok, m["factory_manager"] == "F1"
+        if what == "dtype_arr":
+            ft = np.dtype(FLOAT_TYPES[m["float_type"]])
+            return (str(fl.scalar(np.array([1.0, 2.0])).dtype), str(fl.scalar(np.array([1.0], dtype=np.float32)).dtype),
+                    str(fl.scalar([1.0, 2.0]).dtype)), (str(ft),) * 3
+        if what == "str3d":
+            x3 = np.full((1, 1, 2), 1.0 / 3.0)  # arrays of 3 or more dimensions are printed by numpy with `decimals` digits
+            return fl.Op.str(x3), np.array2string(x3, precision=d, floatmode="fixed")
+        if what == "func_mod":
+            try:
+                got = float(fl.Function.create("m", "(0 - 7) % 4").membership(0.0))
+            except SyntaxError:
+                got = None
+            return got, (-3.0 if m["factory_manager"] == "F2" else 1.0)
         if what == "tofloat":
             ft = FLOAT_TYPES[m["float_type"]]
             return type(fl.to_float(1)).__name__, ft.__name__
